@@ -209,14 +209,15 @@ def finM (s : St) (m' : Manager) (head : String) (evs : List Ev) (implEvs : List
   let (lf, back) := ledger s.mg implEvs impl rcv
   let reg := implEvs.foldl applyTokEv s.mg.reg
   let closed := s.mg.closed || closing
-  let tf := tokenMonitors reg closed impl
+  let shared := s.mg.shared ++ sharedIn s.mg.reg implEvs
+  let tf := tokenMonitors reg closed impl shared
   let pf : List Fail :=
     if impl.per ≠ s.mg.lastPer ∧ ¬ (packetsPerConnectionID / 2 ≤ impl.per ∧ impl.per < packetsPerConnectionID / 2 + packetsPerConnectionID) then
       [("period_in_range", "-", s!"rotation period {impl.per}")] else []
   let mg' : MGhost := { s.mg with
     prevU := impl.inUse, retired := s.mg.retired ++ retiredIn implEvs,
     received := (match rcv with | some x => if s.mg.received.contains x then s.mg.received else x :: s.mg.received | none => s.mg.received),
-    reg := reg, closed := closed, tainted := s.mg.tainted || back, lastPer := impl.per,
+    reg := reg, shared := shared, closed := closed, tainted := s.mg.tainted || back, lastPer := impl.per,
     dead := s.mg.dead || closed || implHead.startsWith "E:" || implHead.startsWith "PANIC" }
   ({ s with m := some m', r := r', mg := mg' }, { model := model, tags := tags, fails := lf ++ tf ++ pf ++ extra })
 
